@@ -180,7 +180,9 @@ def isNumberLiteral : Option Node → Bool
 
 /-- after the dot only a single token (or an identifier with its postfix operator) is read without parentheses -/
 def isSingleToken : Option Node → Bool
-  | some (.ident _) | some (.strLit _) | some (.boolean _) | some (.post ..) => true
+  | some (.ident t) => t.type != .DOTDOT   -- a.(..): `a...` would be read as `a`, `..`, `.`
+  | some (.post _ p) => p.type != .DOTDOT
+  | some (.strLit _) | some (.boolean _) => true
   | _ => false
 
 def litByte (t : Tk) : UInt8 := t.lit.headD 0
